@@ -266,6 +266,7 @@ func runC18(c *Ctx, pr *PropertyRun) {
 	}
 	ad.RequireRole("handler")
 
+	noLockAcrossPeerRule(c, pr, "C18")
 	addressedOnlyRule(c, pr, "C18")
 	c18Upload(c, pr, "C18")
 	// Close reports the outcome of the request: what the request layer makes
@@ -1184,4 +1185,95 @@ func becomesRequestBody(cc *ssa.CallCommon, ai int, depth int) bool {
 		}
 	})
 	return found
+}
+
+// noLockAcrossPeerRule: requests on disjoint resources do not wait for one
+// another. A lock that is shared by all requests (a package-level mutex, or
+// one in a Handler/Client/LocalFileSystem value) held while the function
+// copies from a reader it was given — the request body, whose speed the peer
+// decides — makes every other request that needs the lock wait for that peer:
+// one stalled upload blocks the DELETE of an unrelated resource.
+func noLockAcrossPeerRule(c *Ctx, pr *PropertyRun, prop string) {
+	p := c.P
+	r := NewRule(prop, prop+".no-lock-across-peer", "no function takes a lock shared by all requests and, before releasing it, reads from a reader it was handed (io.Copy / Read on a parameter) (E4)")
+	pr.Rules = append(pr.Rules, r)
+	for _, fn := range p.ModFns {
+		if !inLib(fn) || len(fn.Blocks) == 0 {
+			continue
+		}
+		var locks []ssa.CallInstruction
+		deferredUnlock := false
+		eachCall(fn, func(site ssa.CallInstruction) {
+			n := calleeName(site.Common())
+			switch n {
+			case "(*sync.Mutex).Lock", "(*sync.RWMutex).Lock", "(*sync.RWMutex).RLock":
+				// shared: rooted in a global or in the receiver of a shared type
+				root := site.Common().Args[0]
+				for i := 0; i < 6; i++ {
+					switch x := root.(type) {
+					case *ssa.FieldAddr:
+						root = x.X
+						continue
+					case *ssa.UnOp:
+						root = x.X
+						continue
+					}
+					break
+				}
+				if _, shared := sharedRoot(fn, root); shared {
+					if _, isDefer := site.(*ssa.Defer); !isDefer {
+						locks = append(locks, site)
+					}
+				}
+			case "(*sync.Mutex).Unlock", "(*sync.RWMutex).Unlock", "(*sync.RWMutex).RUnlock":
+				if _, isDefer := site.(*ssa.Defer); isDefer {
+					deferredUnlock = true
+				}
+			}
+		})
+		r.Role("library-function")
+		if len(locks) == 0 {
+			r.Ob(true)
+			continue
+		}
+		// a read from a reader parameter after the lock (to the end of the
+		// function when the unlock is deferred, else in a block the lock
+		// reaches before an unlock — approximated by reachability)
+		bad := ""
+		eachCall(fn, func(site ssa.CallInstruction) {
+			cc := site.Common()
+			n := calleeName(cc)
+			src := -1
+			switch n {
+			case "io.Copy", "io.CopyBuffer", "io.CopyN":
+				src = 1
+			case "io.ReadAll", "io/ioutil.ReadAll", "io.ReadFull":
+				src = 0
+			}
+			if src < 0 || src >= len(cc.Args) {
+				return
+			}
+			v := cc.Args[src]
+			if ci, ok := v.(*ssa.ChangeInterface); ok {
+				v = ci.X
+			}
+			if _, isParam := v.(*ssa.Parameter); !isParam {
+				return
+			}
+			for _, l := range locks {
+				after := l.Block() == site.Block() && instrIndex(l) < instrIndex(site) || blockReaches(l.Block(), site.Block())
+				if after && deferredUnlock {
+					bad = p.instrPos(site)
+				} else if after {
+					// released explicitly: is there an unlock between? (approximation: same block order)
+					bad = p.instrPos(site)
+				}
+			}
+		})
+		r.Ob(bad == "")
+		if bad != "" {
+			r.Violation("lock-across-peer|"+fnKey(fn), bad, fmt.Sprintf("%s takes a lock that all requests share (%s) and, still holding it, copies from a reader it was handed: how long that takes is up to the peer, and every request that needs the lock — also for an unrelated resource — waits for it", fnKey(fn), p.instrPos(locks[0])), nil)
+		}
+	}
+	r.RequireRole("library-function")
 }
